@@ -3,8 +3,8 @@ import os, sys, itertools
 from common import *
 
 PID = 'C05'
-TARGETS = ['Properties/C05.vo', 'Bridge/IntBridge.vo', 'Bridge/CodegenBridge.vo', 'Bridge/PlumbingBridge.vo']
-KERNELS = ['G6_int', 'G11_codegen', 'G19_field_ctor']      # G11: the struct runs the code generator builds from adjacent Int fields
+TARGETS = ['Properties/C05.vo', 'Bridge/IntBridge.vo', 'Bridge/CodegenBridge.vo', 'Bridge/RefBridge.vo', 'Bridge/PlumbingBridge.vo']
+KERNELS = ['G6_int', 'G11_codegen', 'G19_field_ctor', 'G16b_optional']      # G11: the struct runs the code generator builds from adjacent Int fields
 PROP_FILE = 'Properties/C05.v'
 
 HEADER_PY = "from bisturi.packet import Packet\nfrom bisturi.field import Int, Data, Ref, Bits\n"
@@ -272,6 +272,31 @@ def run(tier, seed, rng):
         if o.get('ok') != raw.hex():
             failures.append(dict(kind='oracle', sig='int-encode-neighbours', what='adjacent Int fields: the values do not encode to the bytes that decode to them',
                                  cls=src, values=want, observed=str(o), required=raw.hex()))
+    # ---- the class-wide default byte order also reaches an integer that is the element of a repeated field or sits behind
+    # an optional (they are compiled through their wrapper)
+    wsrc, wcases, wmeta = "", [], []
+    k = 0
+    for ce in (None, 'little', 'big', 'local', 'network'):
+        for n in (2, 3, 4):
+            for signed in (False, True):
+                for fe in (None, 'little'):
+                    nm = f"W{k}"; k += 1
+                    conf = {} if ce is None else {'endianness': ce}
+                    wsrc += (f"class {nm}(Packet):\n    __bisturi__ = {conf!r}\n"
+                             f"    xs = Int({n}, signed={signed}, endianness={SPELL[fe]}).repeated(count=2)\n"
+                             f"    o = Int({n}, signed={signed}, endianness={SPELL[fe]}).when(lambda pkt, raw=b'', offset=0, **k: True)\n")
+                    for raw in (bytes(range(1, 3 * n + 1)), bytes([0x80 + i for i in range(3 * n)]), bytes(rng.randrange(256) for _ in range(3 * n))):
+                        wcases.append(dict(cls=nm, op='roundtrip', raw=raw.hex(), offset=0))
+                        wmeta.append((nm, n, signed, fe, ce, raw))
+    wres = run_impl(os.path.join(VERIF, 'harness', 'impl_pkt.py'), dict(header=HEADER_PY, blocks=[dict(name='wrapped', src=wsrc)], modname='c05w', cases=wcases))
+    dist['wrapped_decodes'] = len(wcases)
+    for (nm, n, signed, fe, ce, raw), o in zip(wmeta, wres['outcomes']):
+        big = ref_big(fe, ce)
+        want = [[ref_decode(n, signed, big, raw[0:n]), ref_decode(n, signed, big, raw[n:2 * n])], ref_decode(n, signed, big, raw[2 * n:3 * n])]
+        got = [v for _, v in o['ok']['f']] if 'ok' in o else o
+        if got != want or o.get('packed') != {'ok': raw.hex()}:
+            failures.append(dict(kind='oracle', sig='int-wrapped', what='an Int that is the element of a repeated field / behind an optional is not decoded (or re-encoded) in the byte order the declaration gives it',
+                                 cls=[l for l in wsrc.split('class ') if l.startswith(nm + '(')][0].join(['class ', '']), raw=raw.hex(), observed=str(o)[:300], required=want))
     # ---- Tie B: the model on the same cases
     lines = []
     for (cfg, kind, x), ob in zip(cases, obs):
